@@ -304,6 +304,15 @@ func (pc *prodGen) alt(depth int, consumed bool) *Expr {
 			if pc.s.o.NamesElided && pc.s.o.Profile == ProfStateful && r.Chance(1, 6) {
 				// an alternative that consists of nothing but an explicitly named elided token
 				k = &Expr{Op: "ref", Typ: r.Pick("WS", "Comment")}
+				if r.Bool() {
+					// ... or a bare literal only a token of an elided type can match (the texts are the
+					// ones Render writes between tokens), with and without the type constraint
+					if r.Bool() {
+						k = &Expr{Op: "lit", Text: r.Pick("# c", "# c x", "# c a b"), Typ: r.Pick("", "Comment")}
+					} else {
+						k = &Expr{Op: "lit", Text: r.Pick(" ", "\n", "  "), Typ: r.Pick("", "WS")}
+					}
+				}
 			}
 			a.Kids = append(a.Kids, k)
 			prev = k
